@@ -2,6 +2,7 @@ package main
 
 import (
 	"fmt"
+	"go/constant"
 	"go/token"
 	"go/types"
 	"sort"
@@ -1144,4 +1145,129 @@ func exitBlockOf(f *ssa.Function) *ssa.BasicBlock {
 		return rets[0]
 	}
 	return f.Blocks[0]
+}
+
+// ---------------------------------------------------------------- the built descriptor is published under the lookup key
+
+// getStructDesc / getOrcreateStructDesc look a descriptor up under the type word of the argument. After a successful build
+// createStructDesc must leave it there: under the struct type itself (the key of a by-value argument) and, for a pointer
+// argument, under the pointer type. Otherwise every later call builds - or at least locks and searches - again: the first-use
+// path, which the allocation rule exempts and the lock rule serialises, would be the common path.
+func publishKeys(c *Ctx, s *obSink) {
+	fn := c.SSA[pkgReflect].Func("createStructDesc")
+	if fn == nil || len(fn.Params) != 1 {
+		s.bad("publish-keys", "-", "createStructDesc not found")
+		return
+	}
+	var build *ssa.Call
+	var sets []*ssa.Call
+	for _, b := range fn.Blocks {
+		for _, ins := range b.Instrs {
+			call, ok := ins.(*ssa.Call)
+			if !ok || call.Call.StaticCallee() == nil {
+				continue
+			}
+			switch shortFn(call.Call.StaticCallee()) {
+			case "newStructDescAndPrefetch":
+				build = call
+			case "mapStructDesc.Set":
+				sets = append(sets, call)
+			}
+		}
+	}
+	if build == nil {
+		s.bad("publish-keys", c.Pos(fn.Pos()), "the descriptor build call was not found in createStructDesc")
+		return
+	}
+	// the success return after the build
+	var succ *ssa.BasicBlock
+	for _, b := range fn.Blocks {
+		ret, ok := b.Instrs[len(b.Instrs)-1].(*ssa.Return)
+		if !ok || len(ret.Results) != 2 || b == fn.Recover {
+			continue
+		}
+		if build.Block().Dominates(b) && !definitelyNonNilErr(unspill(ret.Results[1], b), b) {
+			succ = b
+		}
+	}
+	if succ == nil {
+		s.bad("publish-keys", c.Pos(fn.Pos()), "no success return after the build")
+		return
+	}
+	isBuilt := func(v ssa.Value) bool {
+		v = unspill(v, succ)
+		if ex, ok := v.(*ssa.Extract); ok {
+			return ex.Tuple == ssa.Value(build) && ex.Index == 0
+		}
+		return false
+	}
+	ptrKind := int64(22)
+	if rp := c.ByPath["reflect"]; rp != nil {
+		if o, ok := rp.Types.Scope().Lookup("Ptr").(*types.Const); ok {
+			if v, ok := constant.Int64Val(o.Val()); ok {
+				ptrKind = v
+			}
+		}
+	}
+	elemOK, argOK := false, false
+	var elemPos, argPos string
+	for _, st := range sets {
+		if len(st.Call.Args) != 3 || !isBuilt(st.Call.Args[2]) || !build.Block().Dominates(st.Block()) {
+			continue
+		}
+		kc, ok := st.Call.Args[1].(*ssa.Call)
+		if !ok || kc.Call.StaticCallee() == nil {
+			continue
+		}
+		switch kc.Call.StaticCallee().Name() {
+		case "rtTypePtr":
+			// the struct type: unconditionally on the way to the success return
+			if st.Block().Dominates(succ) {
+				elemOK, elemPos = true, c.InstrPos(st)
+			}
+		case "rvTypePtr":
+			if len(kc.Call.Args) != 1 || unspillParam(kc.Call.Args[0]) != ssa.Value(fn.Params[0]) {
+				continue
+			}
+			// exactly for a pointer argument: the only condition between the build and this store is Kind() == Ptr
+			ptr := false
+			other := false
+			for _, cd := range domConds(st.Block()) {
+				if cd.If == nil || !build.Block().Dominates(cd.If.Block()) || cd.If.Block() == build.Block() {
+					continue
+				}
+				bo, ok := cd.V.(*ssa.BinOp)
+				if ok {
+					if k, isK := constInt(bo.Y); isK && k == ptrKind && (bo.Op == token.EQL && cd.Truth || bo.Op == token.NEQ && !cd.Truth) {
+						if kc2, ok := bo.X.(*ssa.Call); ok && kc2.Call.StaticCallee() != nil && kc2.Call.StaticCallee().String() == "(reflect.Value).Kind" {
+							ptr = true
+							continue
+						}
+					}
+					// the error test of the build itself
+					if isNilConst(bo.Y) || isNilConst(bo.X) {
+						continue
+					}
+				}
+				other = true
+			}
+			if ptr && !other && blockReaches(st.Block(), succ) {
+				argOK, argPos = true, c.InstrPos(st)
+			}
+		}
+	}
+	s.check(elemOK, "publish-keys:struct-type", orDash(elemPos, c.Pos(fn.Pos())), "the built descriptor is stored under the struct type before the success return", "after a successful build the descriptor is not stored in the lock-free map under the struct type: a by-value argument of this type takes the locked first-use path on every call")
+	s.check(argOK, "publish-keys:pointer-type", orDash(argPos, c.Pos(fn.Pos())), "for a pointer argument the descriptor is also stored under the pointer type, the key of the lock-free lookup", "after a successful build the descriptor is not stored under the pointer type exactly when the argument is a pointer: the lock-free lookup by the argument's type word never hits, and every call with a pointer takes the locked first-use path again")
+}
+
+func orDash(a, b string) string {
+	if a != "" {
+		return a
+	}
+	return b
+}
+
+func init() {
+	registerExtra("E1.cow-publish", publishKeys)
+	registerExtra("E10.no-heap", publishKeys)
 }
